@@ -181,6 +181,8 @@ class Slicer:
             start, stop, step = item.start, item.stop, item.step
             if not (step is None or isinstance(step, int)):
                 raise TypeError("Step must be None or an integer")
+            if step is not None and step < 1:
+                raise ValueError("Step must be positive")
             if start is not None:
                 if isinstance(start, str):
                     start = Slicer.resolve_labels(start, labels)
